@@ -207,7 +207,7 @@ def scaled_jobs(tier):
 
 
 def scaled_attr(kind, op, tag, diag):
-    if kind in ("ScBin", "ScIdent") and op in ("div", "mod", "ident"):
+    if (kind in ("ScBin", "ScIdent") and op in ("div", "mod", "ident")) or kind == "ScQuot":
         return ["C02"]
     if kind in ("ScBin", "ScUn"):
         return ["C01"]
@@ -585,7 +585,7 @@ CHECKS = {
                "a/b and a%b are checked against the C++ semantics of the rep operator (CxxInt; truncated division over unbounded "
                "integers for wrapper reps), result exponents exp(a)-exp(b) and exp(a); the identity (a/b)*b + a%b == a is "
                "evaluated by the library itself and must be true wherever the spec says division is defined.",
-               "quotient() is not yet covered by this check; zero divisors and MIN/-1 are excluded as the property states"),
+               "quotient(a,b) is judged for radix-2 scaled_integer pairs: value = true quotient truncated toward zero at the result exponent, and the result type must hold the widest possible quotient (|a| maximal, |b| = 1 unit); zero divisors and MIN/-1 are excluded as the property states"),
     "C03": chk(["scaled"], [],
                SCALED_RULE + "all six comparison results are recorded per pair; non-trivial = different exponents or mixed "
                "signedness",
